@@ -191,6 +191,9 @@ def run(tier, seed, ev):
                 open(os.path.join(d, "result.json"), "w").write(json.dumps(j))
                 viols.append({"replay": d, "msg": "burst not detected (or intact member rejected): %s" % json.dumps(j)})
         ev.set("burst_cases_on_implementation", tot)
+    # the whole of stdout of `lha t | x | e` (progress bar, verdict words) and the exit status against Cli.tla
+    import clicommon as CL
+    viols += CL.run("C07", tier, seed, ev, 20 if tier == "quick" else 300, modes=("t", "x", "e"))
     ev.add("traces_validated_against_impl", good)
     ev.set("archives", len(vs))
     ev.sample({"class": vs[0][0], "method": vs[0][1], "job": jobs[0][:200]})
@@ -202,7 +205,7 @@ def run(tier, seed, ev):
         if os.path.exists(jf):
             for ln in open(jf):
                 p = ln.split()
-                if os.path.exists(p[2]):
+                if len(p) > 2 and ln.startswith("exec ") and os.path.exists(p[2]):
                     shutil.copy(p[2], v["replay"])
     shutil.rmtree(sc, ignore_errors=True)
     return viols
